@@ -17,8 +17,12 @@ def run(ctx):
     assertions_seen = []
     distinct = set()
     n302 = 0
+    par_outcomes = {}
+    reposts = 0   # PAR posts that re-sent the assertion of an earlier attempt of the same exchange (retries after 5xx)
     for o, li, lo in zip(obs, ins, impl):
         case = {"input": li, "impl": lo, "host": o.get("host"), "xfh": o.get("xfh")}
+        if o.get("par_mode"):
+            case["par_endpoint_behaviour"], case["par_endpoint_answers"] = o["par_mode"], o.get("par_replies", [])
         distinct.add((li.split(" | ")[1] if " | " in li else li, o["cfg"]))
         cfg = o["cfg"].split()
         par, use_secret = cfg[10] == "1", cfg[11] == "1"
@@ -26,6 +30,11 @@ def run(ctx):
         acr_supported = [unhex(x) for x in cfg[5].split(",")]
         loc_default, loc_supported = unhex(cfg[6]), [unhex(x) for x in cfg[7].split(",")]
         configured = o.get("ingresses", [])
+        if o.get("par_mode"):
+            k = (o["par_mode"], o["status"], len(o.get("par_replies", [])))
+            par_outcomes[k] = par_outcomes.get(k, 0) + 1
+        bc = o.get("back_credentials", [])
+        reposts += len(bc) - len(set(bc))
         for a in o.get("assertions", []):
             if not (a["signature_valid"] and a["iss"] == "client-id" and a["sub"] == "client-id" and a["aud"] == "http://idp"
                     and 0 < a["lifetime_s"] <= 30):
@@ -39,6 +48,24 @@ def run(ctx):
                 ctx.violation("c13-secret-in-front-channel", "client secret in a browser-visible response", case)
             if "client_assertion" in b or "client_secret" in b:
                 ctx.violation("c13-credential-param-in-front-channel", "client credential parameter in a browser-visible response", case)
+            # ... in particular none of the signed assertions that went over the back channel during this very request
+            if any(ca and ca in b for ca in o.get("back_credentials", [])):
+                ctx.violation("c13-assertion-in-front-channel", "a client assertion posted to the provider also appears in a browser-visible response",
+                              dict(case, par_mode=o.get("par_mode"), par_replies=o.get("par_replies")))
+        # with pushed authorization requests the browser is sent to the provider only with the reference the PAR endpoint issued
+        # for THIS login: whenever that endpoint fails (4xx, 5xx for the whole retry budget, undecodable body, no answer,
+        # unreachable) there is no reference, hence no authorization request at all
+        if par and o["kind"] == "login" and o["status"] == 302:
+            from urllib.parse import urlparse, parse_qs
+            locs = [b for b in o.get("browser_visible", [])[:1] if b]
+            q = parse_qs(urlparse(locs[0]).query, keep_blank_values=True) if locs else {}
+            ref = (q.get("request_uri") or [None])[0]
+            if ref is None or ref not in o.get("par_issued", []):
+                ctx.violation("c13-par-request-uri-not-issued",
+                              "with PAR the browser was sent to the provider without a request_uri that the PAR endpoint issued for this login "
+                              "(PAR endpoint behaviour: %s, answers: %s)" % (o.get("par_mode"), o.get("par_replies")),
+                              dict(case, location=locs[0] if locs else "", par_mode=o.get("par_mode"), par_replies=o.get("par_replies"),
+                                   par_issued=o.get("par_issued", [])))
         if o["kind"] == "logout":
             if o["status"] == 302:
                 ok = any(o["redirect_uri"] == i + "/oauth2/logout/callback" and i.split("://")[1].split("/")[0] in (o.get("host"), o.get("xfh")) for i in configured)
@@ -97,15 +124,24 @@ def run(ctx):
         if par:
             loc_q = [b for b in o["browser_visible"] if b.startswith("http://idp/authorize")]
             from urllib.parse import urlparse, parse_qs
-            keys = set(parse_qs(urlparse(loc_q[0]).query).keys()) if loc_q else set()
+            keys = set(parse_qs(urlparse(loc_q[0]).query, keep_blank_values=True).keys()) if loc_q else set()
             if keys != {"client_id", "request_uri"}:
-                ctx.violation("c13-par-leaks-parameters", "with PAR the browser URL carries more than client_id and request_uri", dict(case, keys=sorted(keys)))
+                ctx.violation("c13-par-leaks-parameters", "with PAR the browser URL carries more than client_id and request_uri",
+                              dict(case, keys=sorted(keys), par_mode=o.get("par_mode"), par_replies=o.get("par_replies")))
     ctx.nontrivial += len(distinct)
     ctx.extra["input_distribution"] = {"requests": len(obs), "redirected_to_provider": n302, "distinct_random_values": len(seen_atoms),
-                                       "client_assertions_verified": len(seen_jti)}
+                                       "client_assertions_verified": len(seen_jti),
+                                       "par_retries_re_sending_the_same_assertion": reposts,
+                                       "par_endpoint_behaviour_x_status_x_attempts": {"%s/%d/%d" % k: v for k, v in sorted(par_outcomes.items())}}
     ctx.samples += [{"input": li[-260:], "observed": lo[:400]} for li, lo in list(zip(ins, impl))[:3]]
     ctx.rule = ("login / logout requests through the real router over ingress sets (single, prefixed, multi-host, nested prefixes, ports) x acr default {none, supported, legacy, unsupported} "
-                "x PAR on/off x client secret / private key x Host {configured, foreign, empty} x X-Forwarded-Host x level/locale/prompt values (supported, legacy, unsupported, hostile bytes); "
+                "x PAR on/off x PAR endpoint behaviour {healthy, 4xx json/text, 5xx once, twice, for the whole 5 s retry budget, undecodable 201, 201 without request_uri, "
+                "never answering (client timeout), connection refused} x client secret / private key x Host {configured, foreign, empty} x X-Forwarded-Host x level/locale/prompt values (supported, legacy, unsupported, hostile bytes); "
                 "distinct_nontrivial = distinct (request, configuration) pairs")
     ctx.assumptions += ["crypto/rand yields unpredictable bytes (the theorem shows the values are fresh draws used nowhere else; entropy is assumed)",
-                        "S256 is modelled as an injective symbol", "provider = the harness's fake provider"]
+                        "S256 is modelled as an injective symbol", "provider = the harness's fake provider",
+                        "'a signed assertion that is unique per request': the retried POSTs of ONE pushed-authorization exchange re-send one byte-identical body, "
+                        "assertion included (ClientAuthenticationParams is computed once, outside retry.DoValue); the monitor counts such an exchange as one request "
+                        "and requires the jti to be unique across exchanges / token requests",
+                        "the generator counter after a failed login is not observable; model and implementation are compared on status, browser parameters, "
+                        "back-channel posts and cookie there"]
